@@ -16,7 +16,9 @@ import (
 	"bytes"
 	"context"
 	"fmt"
+	"net"
 	"strings"
+	"sync"
 	"testing"
 	"time"
 	"unicode"
@@ -163,6 +165,11 @@ func c20Relation(req string, keys []string) string {
 	return rel
 }
 
+type c20Env struct{ sinks []*kitSink }
+
+// envs2 hands out one environment of the pool (all are idle once ParCases has returned).
+func envs2(pool chan *c20Env) chan *c20Env { return pool }
+
 func TestVerif_C20(t *testing.T) {
 	r := verifkit.Start(t, "C20", "handler")
 	r.Rule("PRNG endpoint configurations (1-5 distinct keys incl. prefixes/extensions/case variants of one another, empty, 254/255-byte, NUL, non-UTF-8; each key -> its own loopback listener) x requested keys " +
@@ -170,10 +177,9 @@ func TestVerif_C20(t *testing.T) {
 	r.Assume("ground truth for 'connected' = accept on the loopback listener of a target; a target host:port is only ever a 127.0.0.1 listener of the harness")
 
 	workers := 4
-	type env struct{ sinks []*kitSink }
-	envs := make(chan *env, workers)
+	envs := make(chan *c20Env, workers)
 	for i := 0; i < workers; i++ {
-		e := &env{}
+		e := &c20Env{}
 		for j := 0; j < c20Targets; j++ {
 			s, err := newKitSink()
 			if err != nil {
@@ -324,10 +330,280 @@ func TestVerif_C20(t *testing.T) {
 			r.Sample(witness())
 		}
 	})
+	c20Concurrent(r, <-envs2(envs))
 	r.Require("requests", 3000)
 	r.Require("known_key_connected", 500)
 	r.Require("unknown_key_refused_not_found", 1000)
 	r.Require("unknown:prefix-of-configured", 50)
 	r.Require("unknown:extension-of-configured", 50)
 	r.Require("unknown:case-variant", 50)
+}
+
+// ---------------------------------------------------------------------------- concurrent opens
+
+// c20cWriter records answers by REQUEST id (stream ids are deliberately re-used across peers).
+type c20cWriter struct {
+	mu      sync.Mutex
+	replies map[uint64]chan kitReply
+	extra   int // answers for a request that already had one
+}
+
+func (w *c20cWriter) expect(req uint64) chan kitReply {
+	w.mu.Lock()
+	defer w.mu.Unlock()
+	ch := make(chan kitReply, 4)
+	w.replies[req] = ch
+	return ch
+}
+
+func (w *c20cWriter) put(req uint64, rp kitReply) {
+	w.mu.Lock()
+	ch := w.replies[req]
+	w.mu.Unlock()
+	if ch == nil {
+		return
+	}
+	select {
+	case ch <- rp:
+	default:
+	}
+}
+
+func (w *c20cWriter) WriteStreamData(identity.AgentID, uint64, []byte, uint8) error { return nil }
+func (w *c20cWriter) WriteStreamClose(identity.AgentID, uint64) error               { return nil }
+func (w *c20cWriter) WriteStreamOpenAck(_ identity.AgentID, _ uint64, req uint64, ip net.IP, port uint16, eph [crypto.KeySize]byte) error {
+	w.put(req, kitReply{Ack: true, BoundIP: ip, BoundPort: port, Eph: eph})
+	return nil
+}
+func (w *c20cWriter) WriteStreamOpenErr(_ identity.AgentID, _ uint64, req uint64, code uint16, msg string) error {
+	w.put(req, kitReply{ErrCode: code, ErrMsg: msg})
+	return nil
+}
+
+type c20cOpen struct {
+	Peer   int    `json:"peer"`
+	Stream uint64 `json:"stream_id"`
+	Key    string `json:"key"`
+	Target int    `json:"target"`
+	Reply  string `json:"reply"`
+	At     []int  `json:"accepted_at,omitempty"`
+}
+
+// c20Concurrent: several peers open streams at the same moment, re-using the same few stream ids
+// (stream ids are per connection, so two peers legitimately use the same numbers) for different
+// keys. Every acknowledged open is attributed to the listener that accepted its connection through
+// the bound port reported in the ack: it must be the listener of the key THAT request named.
+func c20Concurrent(r *verifkit.R, e *c20Env) {
+	rounds := r.N(300, 6000)
+	var reqSeq uint64 = 1 << 20
+	var h *forward.Handler
+	var w *c20cWriter
+	var keys []string
+	tgt := map[string]int{}
+	var peers []identity.AgentID
+	var eph [crypto.KeySize]byte
+	defer func() {
+		if h != nil {
+			h.Stop()
+		}
+	}()
+	gaveUp := false
+	r.Cases("conc", rounds, func(ci int, rng *verifkit.Rand) {
+		if gaveUp {
+			return
+		}
+		if ci%10 == 0 || h == nil { // new configuration
+			if h != nil {
+				h.Stop()
+			}
+			nk := 2 + rng.Intn(4)
+			perm := make([]int, c20Targets)
+			for i := range perm {
+				perm[i] = i
+			}
+			verifkit.Shuffle(rng, perm)
+			keys = keys[:0]
+			tgt = map[string]int{}
+			var eps []forward.Endpoint
+			for i := 0; i < nk; i++ {
+				k := fmt.Sprintf("svc-%d", i)
+				keys = append(keys, k)
+				tgt[k] = perm[i]
+				eps = append(eps, forward.Endpoint{Key: k, Target: fmt.Sprintf("127.0.0.1:%d", e.sinks[perm[i]].Port)})
+			}
+			cfg := forward.DefaultHandlerConfig()
+			cfg.Endpoints = eps
+			cfg.ConnectTimeout = 5 * time.Second
+			cfg.IdleTimeout = 30 * time.Second
+			cfg.MaxConnections = 1 << 20
+			var local identity.AgentID
+			rng.Fill(local[:])
+			w = &c20cWriter{replies: map[uint64]chan kitReply{}}
+			h = forward.NewHandler(cfg, local, w)
+			h.Start()
+			peers = peers[:0]
+			for i, n := 0, 3+rng.Intn(6); i < n; i++ {
+				var p identity.AgentID
+				rng.Fill(p[:])
+				peers = append(peers, p)
+			}
+			_, pub, err := crypto.GenerateEphemeralKeypair()
+			if err != nil {
+				r.Inconclusive("keygen: " + err.Error())
+				gaveUp = true
+				return
+			}
+			eph = pub
+			for _, s := range e.sinks {
+				if _, ok := s.barrier(); !ok {
+					r.Inconclusive("sink barrier failed (watchdog)")
+					gaveUp = true
+					return
+				}
+			}
+		}
+		ids := []uint64{1, 3, 5}[:1+rng.Intn(3)]
+		type one struct {
+			c20cOpen
+			req uint64
+			ch  chan kitReply
+			rp  kitReply
+			got bool
+		}
+		opens := make([]*one, len(peers))
+		for i := range peers {
+			k := keys[rng.Intn(len(keys))]
+			reqSeq++
+			o := &one{c20cOpen: c20cOpen{Peer: i, Stream: ids[rng.Intn(len(ids))], Key: k, Target: tgt[k]}, req: reqSeq}
+			o.ch = w.expect(o.req)
+			opens[i] = o
+		}
+		start := make(chan struct{})
+		var wg sync.WaitGroup
+		for i, o := range opens {
+			wg.Add(1)
+			go func(i int, o *one) {
+				defer wg.Done()
+				<-start
+				h.HandleStreamOpen(context.Background(), o.Stream, o.req, peers[i], o.Key, eph)
+			}(i, o)
+		}
+		close(start)
+		wg.Wait()
+		// every open is answered exactly once (a missing answer only shows as a watchdog: inconclusive)
+		missing := 0
+		deadline := time.NewTimer(5 * time.Second)
+		expired := false
+		for _, o := range opens {
+			select {
+			case o.rp = <-o.ch:
+				o.got = true
+				continue
+			default:
+			}
+			if !expired {
+				select {
+				case o.rp = <-o.ch:
+					o.got = true
+					continue
+				case <-deadline.C:
+					expired = true
+				}
+			}
+			missing++
+		}
+		deadline.Stop()
+		// which listener accepted which source port
+		at := map[int][]int{} // source port -> listener indexes
+		perSink := map[int]int{}
+		for si, s := range e.sinks {
+			accs, ok := s.barrier()
+			if !ok {
+				r.Inconclusive("sink barrier failed (watchdog)")
+				gaveUp = true
+				return
+			}
+			for _, a := range accs {
+				at[a.RemotePort] = append(at[a.RemotePort], si)
+				perSink[si]++
+			}
+		}
+		var ws []c20cOpen
+		collide := map[uint64]map[string]bool{}
+		acksFor := map[int]int{}
+		for _, o := range opens {
+			if collide[o.Stream] == nil {
+				collide[o.Stream] = map[string]bool{}
+			}
+			collide[o.Stream][o.Key] = true
+			switch {
+			case !o.got:
+				o.Reply = "none"
+			case o.rp.Ack:
+				o.Reply = "ack"
+				o.At = at[int(o.rp.BoundPort)]
+				acksFor[o.Target]++
+			default:
+				o.Reply = fmt.Sprintf("err %d", o.rp.ErrCode)
+			}
+			ws = append(ws, o.c20cOpen)
+		}
+		sameIDdifferentKeys := false
+		for _, ks := range collide {
+			if len(ks) > 1 {
+				sameIDdifferentKeys = true
+			}
+		}
+		okRound := true
+		for _, o := range opens {
+			r.Add("conc_opens", 1)
+			if !o.got || !o.rp.Ack {
+				continue
+			}
+			hit := false
+			for _, si := range o.At {
+				if si == o.Target {
+					hit = true
+				}
+			}
+			switch {
+			case hit:
+				r.Add("conc_acked_connected_to_own_target", 1)
+			case len(o.At) > 0:
+				okRound = false
+				r.Violation("concurrent-opens-same-stream-id:connected-to-another-keys-target", "conc", ci,
+					fmt.Sprintf("peer %d opened stream %d for key %q (target listener #%d); the connection acknowledged to it (source port %d) was accepted by listener(s) %v, i.e. the target of another key requested at the same time under the same stream id",
+						o.Peer, o.Stream, o.Key, o.Target, o.rp.BoundPort, o.At), ws)
+			default:
+				okRound = false
+				r.Violation("concurrent-opens-same-stream-id:ack-without-connection-at-own-target", "conc", ci,
+					fmt.Sprintf("peer %d stream %d key %q was acknowledged (source port %d) but no listener accepted that connection", o.Peer, o.Stream, o.Key, o.rp.BoundPort), ws)
+			}
+		}
+		for si, n := range perSink {
+			if n != acksFor[si] {
+				okRound = false
+				r.Violation("concurrent-opens-same-stream-id:accepts-differ-from-acks-per-key", "conc", ci,
+					fmt.Sprintf("listener #%d accepted %d connections but %d opens for its key were acknowledged", si, n, acksFor[si]), ws)
+			}
+		}
+		for _, o := range opens {
+			h.HandleStreamClose(peers[o.Peer], o.Stream)
+		}
+		if sameIDdifferentKeys {
+			r.Add("conc_rounds_same_id_different_keys", 1)
+		}
+		var sb strings.Builder
+		for _, o := range ws {
+			fmt.Fprintf(&sb, "%d/%d/%s>%s;", o.Peer, o.Stream, o.Key, o.Reply)
+		}
+		r.Eval("conc|"+sb.String(), okRound && sameIDdifferentKeys && missing == 0)
+		if missing > 0 {
+			r.Inconclusive(fmt.Sprintf("conc: %d concurrent open request(s) were never answered (watchdog; remaining rounds skipped)", missing))
+			gaveUp = true
+		}
+	})
+	r.Require("conc_opens", 1000)
+	r.Require("conc_rounds_same_id_different_keys", 100)
+	r.Require("conc_acked_connected_to_own_target", 1000)
 }
